@@ -354,3 +354,5 @@ ENTRIES["C10"]["text"] += (" TieColl.robotBody_is_source ([G]): collision_detail
     "which mode override, no skips) are the model's functions.")
 ENTRIES["C17"]["text"] += (" Props/Tie.frame_is_source' ([G]): Frame::frame and distances_match, translated expression by expression from the CURRENT source (rejections in "
     "order with their own errors and the triple they name, the two bases, their product, the translation), are the model's frameOf / distancesMatch (rfl).")
+ENTRIES["C15"]["text"] += (" Props/Tie.jacobian_is_source ([G]): the column closure of compute_jacobian and the wrench of Jacobian::torques, translated from the CURRENT "
+    "source on every run, are the model's jacobianColumn / wrenchOfIso (rfl).")
